@@ -722,7 +722,7 @@ pub fn run_c12(p: &Params) -> Outcome {
         p.n(1_500, 40_000),
         &glong,
         &|rng| {
-            let n = rng.range(1, 3);
+            let n = rng.range(2, 3);
             ((0..n).map(|_| gen_stage(rng, ALL_PKS, 6)).collect(), rng.chance(1, 2))
         },
         &nt,
